@@ -1184,7 +1184,7 @@ class Executor:
             ctx._outputting_as_unicode = True
         same = True
         old = signal.signal(signal.SIGALRM, _alarm)
-        signal.setitimer(signal.ITIMER_REAL, 10)
+        signal.setitimer(signal.ITIMER_REAL, core.tscale(10))
         try:
             try:
                 if route == "context":
